@@ -182,4 +182,18 @@ META = {
         "results).  No environment fault applies to in-memory algebra.",
         ["scope_emptied"],
     ),
+    "C07": _m(
+        "one evaluation = one simulated run: a Bayesian-network world of <=5 variables (cardinality <=3, zeros, str or int labels, default / str / int state names, a "
+        "latent set in 40% of runs), one BayesianModelSampling object shared by all steps in 60% of runs, then 2..5 steps from {forward_sample (with partial samples), "
+        "rejection_sample (evidence probability down to 0.02: several adaptive batches), likelihood_weighted_sample, Gibbs transition kernels, Gibbs sample, "
+        "BayesianNetwork.simulate with do / evidence / virtual evidence, forward law on 20000 (100000 thorough) rows, rejection law on 4000 (20000) rows}.  Every seeded "
+        "call runs twice with the process-global numpy RNG reseeded before and perturbed (reseeded or consumed) in between; frames must be identical.  Exact oracle per "
+        "row: column set (latents only on request), row count, valid state names, P(cell | sampled parents) > 0, evidence / do columns fixed, likelihood weight = product "
+        "of evidence CPD entries, Gibbs kernel = full conditional of the brute-force joint for every configuration of positive probability.  Law oracle: for every "
+        "family cell with >= 200 rows |p_hat - p| <= sqrt(ln(2/1e-12)/(2m)) (Hoeffding; false-alarm probability per cell 1e-12, seeds fixed so the outcome repeats).  "
+        "Non-trivial = at least one checked step.",
+        "faults: rng_perturb (global numpy RNG reseeded / consumed between and around calls), rare_evidence (rejection loop forced through several batches), "
+        "virtual_evidence_rebind, relabel.  The frequency-law clause is decided statistically with a stated error budget; every other clause exactly.",
+        ["partial_samples", "law_cells_tested"],
+    ),
 }
